@@ -129,7 +129,32 @@ fn hints<'a>(mut it: gimli::CallFrameInstructionIter<'a, R<'a>>) -> Value {
 // ---- evaluation ---------------------------------------------------------------
 struct Sec<'a> {
     frame: DebugFrame<R<'a>>,
+    /// set for `.eh_frame` cases: the same bytes as an EhFrame (then `frame` is unused)
+    eh: Option<EhFrame<R<'a>>>,
     bases: BaseAddresses,
+}
+
+/// `.eh_frame` section with the base addresses the case names (empty array = not set)
+fn eh_section<'a>(bytes: &'a [u8], asz: u8, le: bool, vendor: &str, bases: &Value) -> Sec<'a> {
+    let mut s = section(bytes, asz, le, vendor);
+    let endian = if le { RunTimeEndian::Little } else { RunTimeEndian::Big };
+    let mut eh = EhFrame::new(bytes, endian);
+    eh.set_address_size(asz);
+    eh.set_vendor(if vendor == "aarch64" { Vendor::AArch64 } else { Vendor::Default });
+    let mut b = BaseAddresses::default();
+    let has = |k: &str| bases[k].as_array().map(|a| !a.is_empty()).unwrap_or(false);
+    if has("section") {
+        b = b.set_eh_frame(unbv(&bases["section"]));
+    }
+    if has("text") {
+        b = b.set_text(unbv(&bases["text"]));
+    }
+    if has("data") {
+        b = b.set_got(unbv(&bases["data"]));
+    }
+    s.eh = Some(eh);
+    s.bases = b;
+    s
 }
 
 fn section<'a>(bytes: &'a [u8], asz: u8, le: bool, vendor: &str) -> Sec<'a> {
@@ -137,7 +162,7 @@ fn section<'a>(bytes: &'a [u8], asz: u8, le: bool, vendor: &str) -> Sec<'a> {
     let mut frame = DebugFrame::new(bytes, endian);
     frame.set_address_size(asz);
     frame.set_vendor(if vendor == "aarch64" { Vendor::AArch64 } else { Vendor::Default });
-    Sec { frame, bases: BaseAddresses::default() }
+    Sec { frame, eh: None, bases: BaseAddresses::default() }
 }
 
 /// fde.rows(ctx) then next_row until None / Err; afterwards next_row twice more
@@ -148,15 +173,25 @@ fn run_on<S: UnwindContextStorage<usize>>(
     fdeoff: usize,
     probe: &[u16],
 ) -> Value {
-    let fde = match sec
-        .frame
-        .fde_from_offset(&sec.bases, gimli::DebugFrameOffset(fdeoff), DebugFrame::cie_from_offset)
-    {
+    match &sec.eh {
+        Some(eh) => run_in(ctx, eh, &sec.bases, fdeoff, probe),
+        None => run_in(ctx, &sec.frame, &sec.bases, fdeoff, probe),
+    }
+}
+
+fn run_in<'a, S: UnwindContextStorage<usize>, Sect: UnwindSection<R<'a>>>(
+    ctx: &mut UnwindContext<usize, S>,
+    sect: &Sect,
+    bases: &BaseAddresses,
+    fdeoff: usize,
+    probe: &[u16],
+) -> Value {
+    let fde = match sect.fde_from_offset(bases, Sect::Offset::from(fdeoff), |s: &Sect, b: &BaseAddresses, o| s.cie_from_offset(b, o)) {
         Ok(f) => f,
         Err(e) => return json!({"rows":[],"fin":format!("parse:{}", err_name(&e))}),
     };
     let mut rows = Vec::new();
-    let mut table = match fde.rows(&sec.frame, &sec.bases, ctx) {
+    let mut table = match fde.rows(sect, bases, ctx) {
         Ok(t) => t,
         Err(e) => return json!({"rows":[],"fin":err_name(&e)}),
     };
@@ -252,7 +287,8 @@ fn replay_single(case: &Value) -> Value {
     let le = case["le"].as_bool().unwrap_or(true);
     let fdeoff = case["fdeoff"].as_u64().unwrap_or(0) as usize;
     let probe = probe_of(case);
-    let sec = section(&bytes, asz, le, "aarch64");
+    let is_eh = case["eh"].as_bool().unwrap_or(false);
+    let sec = if is_eh { eh_section(&bytes, asz, le, "aarch64", &case["bases"]) } else { section(&bytes, asz, le, "aarch64") };
     let mut out = Map::new();
     let names: Vec<String> = case["exp"].as_object().map(|m| m.keys().cloned().collect()).unwrap_or_default();
     let base = match AnyCtx::new("vec") {
